@@ -76,7 +76,9 @@ type Evaluator struct {
 	Sent      []SendRec
 	globals   map[types.Object]*Var
 	depth     int
-	SortCalls []token.Pos
+	SortCalls []SortCall
+	// SymVals gives symbols a concrete value for the purpose of comparisons only.
+	SymVals map[string]int64
 }
 
 type SendRec struct {
@@ -640,6 +642,20 @@ func (ev *Evaluator) binop(pos token.Pos, op token.Token, x, y Value, t types.Ty
 			if d.IsConst() {
 				return cmpInt(op, d.C, 0)
 			}
+			if ev.SymVals != nil {
+				tot, all := d.C, true
+				for s, k := range d.T {
+					v, ok := ev.SymVals[s]
+					if !ok {
+						all = false
+						break
+					}
+					tot += k * v
+				}
+				if all {
+					return cmpInt(op, tot, 0)
+				}
+			}
 			ev.fail(pos, "undecidable comparison %s %s %s", xv, op, yv)
 		}
 		if xv.IsConst() && yv.IsConst() {
@@ -745,6 +761,9 @@ func (ev *Evaluator) binop(pos token.Pos, op token.Token, x, y Value, t types.Ty
 			_, ye := y.(ErrVal)
 			if _, ys := y.(Slice); ys {
 				break
+			}
+			if xe, ok := x.(ErrVal); ok && ye {
+				return xe.Msg.Eq(y.(ErrVal).Msg) == (op == token.EQL)
 			}
 			if yn || ye {
 				eq := xn && yn
@@ -1611,10 +1630,82 @@ func (ev *Evaluator) native(pos token.Pos, fn *types.Func, recv Value, args []Va
 		if ok {
 			return &FExpr{Op: "floor", A: f}, true
 		}
-	case "sort.Slice", "sort.SliceStable", "sort.Sort", "sort.Strings", "sort.Ints":
-		// ordering is not modelled: the sorted value keeps its (abstract) contents
-		ev.SortCalls = append(ev.SortCalls, pos)
+	case "sort.Slice", "sort.SliceStable":
+		ev.SortCalls = append(ev.SortCalls, SortCall{Pos: pos, Func: full})
+		sl, ok := args[0].(Slice)
+		less, ok2 := args[1].(*FuncVal)
+		if ok && ok2 {
+			// in-place stable insertion sort by adjacent swaps (sort.Slice is modelled as
+			// stable too; its use where stability matters is flagged by the rules)
+			es := sl.Elems()
+			for i := 1; i < len(es); i++ {
+				for j := i; j > 0; j-- {
+					b, isBool := ev.callFuncVal(pos, less, []Value{K(int64(j)), K(int64(j - 1))}).(bool)
+					if !isBool {
+						ev.fail(pos, "comparator did not return a boolean")
+					}
+					if !b {
+						break
+					}
+					es[j], es[j-1] = es[j-1], es[j]
+				}
+			}
+		}
 		return nil, true
+	case "sort.Sort", "sort.Strings", "sort.Ints":
+		ev.SortCalls = append(ev.SortCalls, SortCall{Pos: pos, Func: full})
+		if sl, ok := args[0].(Slice); ok && full != "sort.Sort" {
+			es := sl.Elems()
+			for i := 1; i < len(es); i++ {
+				for j := i; j > 0; j-- {
+					lt, _ := ev.binop(pos, token.LSS, es[j], es[j-1], nil).(bool)
+					if !lt {
+						break
+					}
+					es[j], es[j-1] = es[j-1], es[j]
+				}
+			}
+		}
+		return nil, true
+	case "sort.SearchStrings", "sort.SearchInts":
+		sl, ok := args[0].(Slice)
+		if !ok {
+			ev.fail(pos, "%s on %s", full, Show(args[0]))
+		}
+		es := sl.Elems()
+		// binary search exactly as the library does it
+		lo, hi := 0, len(es)
+		for lo < hi {
+			mid := int(uint(lo+hi) >> 1)
+			ge, isBool := ev.binop(pos, token.GEQ, es[mid], args[1], nil).(bool)
+			if !isBool {
+				ev.fail(pos, "undecidable search comparison")
+			}
+			if !ge {
+				lo = mid + 1
+			} else {
+				hi = mid
+			}
+		}
+		return K(int64(lo)), true
+	case "math.IsNaN":
+		f, ok := args[0].(*FExpr)
+		if ok && f.IsConst() {
+			return math.IsNaN(f.C), true
+		}
+		ev.fail(pos, "IsNaN of symbolic float")
+	case "math.IsInf":
+		f, ok := args[0].(*FExpr)
+		if ok && f.IsConst() {
+			sign, _ := args[1].(Lin)
+			return math.IsInf(f.C, int(sign.C)), true
+		}
+		ev.fail(pos, "IsInf of symbolic float")
+	case "math.NaN":
+		return FConst(math.NaN()), true
+	case "math.Inf":
+		sign, _ := args[0].(Lin)
+		return FConst(math.Inf(int(sign.C))), true
 	case "errors.New":
 		return ErrVal{Msg: argStr(0)}, true
 	case "fmt.Errorf", "fmt.Sprintf":
@@ -1704,4 +1795,10 @@ type NamedVar struct {
 	Name string
 	Type types.Type
 	V    Value
+}
+
+// SortCall records one call of a sort function seen during evaluation.
+type SortCall struct {
+	Pos  token.Pos
+	Func string
 }
